@@ -222,6 +222,12 @@ func (p *vpIdP) logCall(ep string, params url.Values, outcome string) {
 	p.calls = append(p.calls, vpIdPCall{Seq: p.seq, Endpoint: ep, Params: params, Outcome: outcome})
 }
 
+func (p *vpIdP) snapshotCalls() []vpIdPCall {
+	p.mu.Lock()
+	defer p.mu.Unlock()
+	return append([]vpIdPCall(nil), p.calls...)
+}
+
 func (p *vpIdP) countCalls(ep string) int {
 	p.mu.Lock()
 	defer p.mu.Unlock()
